@@ -458,4 +458,31 @@ example : nband 2 [3, 5, 4] = 28 ∧ (0 < [3, 5, 4][1]) ∧ blockInBand 28 (ilTo
 /-- and the band is tight up to one diagonal: with 26 the coupling block of layers (1, 2) loses an entry -/
 example : blockInBand 26 (ilTop 2 [3, 5, 4] 2) (jl 2 [3, 5, 4] 1) 8 20 = false := by decide
 
+/-! ### `dort.muleye` -/
+
+/-- the vector of ones as an `m × 1` matrix -/
+def onesCol (m : Nat) : Mat R := ⟨m, 1, fun _ _ => 1⟩
+
+/-- `dort.muleye(x)` is the product of the matrix `x` stands for with the vector of ones, whatever the storage and the shape
+    (diagonal: `n × n`; dense: `n × c`, rectangular blocks included; the scalar 0: the zero matrix): row `i` of `x · 1`. -/
+theorem muleye_is_product_with_ones (x : CV R) (n c : Nat) (i : Nat) (hi : i < n)
+    (hshape : match x with | .zero => True | .diag d => d.n = n ∧ c = n | .dense m => m.r = n ∧ m.c = c) :
+    CV.muleye n x i = ((CV.toMat n c x).mul (onesCol c)).f i 0 := by
+  cases x with
+  | zero =>
+    simp only [CV.muleye, CV.toMat, Mat.mul, Mat.zeros, onesCol, zero_mul]
+    rw [sumN_eq_sum]; simp
+  | diag d =>
+    obtain ⟨hn, _⟩ := hshape
+    simp only [CV.muleye, CV.toMat, Mat.mul, Diag.toMat, onesCol, mul_one]
+    rw [sumN_single' d.n i (hn ▸ hi)]
+  | dense m =>
+    obtain ⟨_, _⟩ := hshape
+    simp only [CV.muleye, CV.toMat, Mat.mul, Mat.rowSums, onesCol, mul_one, if_pos hi]
+
+/-- ... and it is *not* the column sums: a 2 × 2 witness distinguishes `x · 1` from `1ᵀ · x` -/
+example : CV.muleye 2 (.dense ⟨2, 2, fun i j => if i = 0 ∧ j = 1 then (1 : ℤ) else 0⟩) 0 = 1
+    ∧ sumN 2 (fun k => (if k = 0 ∧ (0 : Nat) = 1 then (1 : ℤ) else 0)) = 0 := by
+  decide
+
 end Smrt.Props.C20
